@@ -28,6 +28,11 @@
 (* socket within RecoverMs (two ping periods + slack; each failed dial adds the  *)
 (* 1 s retry sleep).  After every accepted event OwnAnswer, ChanOwn,             *)
 (* ReaderNeverBlocks, RegisteredWhileWaiting, StatusLink and NoLeak must hold.   *)
+(* Connection.mu is exclusive: no Send, reconnect or setup section starts while   *)
+(* a Send is between send.try and its result.  A failed dial is accepted only     *)
+(* after the server has closed a connection attempt during its handshake; Hang    *)
+(* (a call outlives its deadline) and srv.corrupt (the client's byte stream is    *)
+(* not a sequence of valid frames) have no action.                                *)
 (* Quiesce closes the segment: every call returned, queries = {}, no delivery in *)
 (* progress, every connection Connected on an open socket, old generations gone, *)
 (* and the goroutine census of the process equals the model's.                   *)
@@ -102,21 +107,25 @@ TimeoutJustified(c) ==
      ELSE IF ansAt[c][1] + Slack >= Deadline(c) THEN TRUE
      ELSE L(ansAt[c][2], ansAt[c][3]).fin # "open"
 
+\* Connection.mu is exclusive: nobody enters one of its critical sections while a Send is between its status check and its result
+MuFree(k) == ~sending[k]
 TCaller == LET c == E.i IN
   /\ IsCall(c) /\ t0[c] # Inf
   /\ CASE K = "reg"  -> Register(c) /\ Same(aux)
        [] K = "pick" -> E.c \in Conns /\ PickConn(c, E.c) /\ Same(aux)
-       [] K = "send.nc"   -> conn[c] = E.c /\ SendNotConnected(c) /\ Same(aux)
+       [] K = "send.nc"   -> conn[c] = E.c /\ MuFree(E.c) /\ SendNotConnected(c) /\ Same(aux)
        [] K = "send.try"  -> /\ pc[c] = "picked" /\ conn[c] = E.c /\ status[E.c] = "Connected" /\ ~trying[c]
+                             /\ MuFree(E.c) /\ sending' = [sending EXCEPT ![E.c] = TRUE]
                              /\ trying' = [trying EXCEPT ![c] = TRUE] /\ NoOp
-                             /\ UNCHANGED <<ncalls, tmo, t0, dlvAt, ansAt, early, clun, indlv, recBy, crun, sending, refused>>
+                             /\ UNCHANGED <<ncalls, tmo, t0, dlvAt, ansAt, early, clun, indlv, recBy, crun, refused>>
        [] K = "send.ok"   -> /\ trying[c] /\ conn[c] = E.c
                              /\ IF early[c] THEN NoOp ELSE SendOk(c)
                              /\ trying' = [trying EXCEPT ![c] = FALSE] /\ early' = [early EXCEPT ![c] = FALSE]
-                             /\ UNCHANGED <<ncalls, tmo, t0, dlvAt, ansAt, clun, indlv, recBy, crun, sending, refused>>
+                             /\ sending' = [sending EXCEPT ![E.c] = FALSE]
+                             /\ UNCHANGED <<ncalls, tmo, t0, dlvAt, ansAt, clun, indlv, recBy, crun, refused>>
        [] K = "send.fail" -> /\ trying[c] /\ ~early[c] /\ conn[c] = E.c /\ SendFail(c)
-                             /\ trying' = [trying EXCEPT ![c] = FALSE]
-                             /\ UNCHANGED <<ncalls, tmo, t0, dlvAt, ansAt, early, clun, indlv, recBy, crun, sending, refused>>
+                             /\ trying' = [trying EXCEPT ![c] = FALSE] /\ sending' = [sending EXCEPT ![E.c] = FALSE]
+                             /\ UNCHANGED <<ncalls, tmo, t0, dlvAt, ansAt, early, clun, indlv, recBy, crun, refused>>
        [] K = "ret.answer"  -> ~trying[c] /\ CallerRecv(c) /\ ret'[c] = <<"answer", E.h>> /\ Same(aux)
        [] K = "ret.timeout" -> ~trying[c] /\ TimeoutJustified(c) /\ CallerTimeout(c) /\ Same(aux)
        [] K = "ret.err"     -> pc[c] = "unreg" /\ ret[c][1] \in {"senderr", "notconnected"} /\ NoOp /\ Same(aux)
@@ -130,15 +139,17 @@ CallerKinds == {"reg", "pick", "ret.answer", "ret.timeout", "ret.err", "unreg", 
 SendKinds   == {"send.nc", "send.try", "send.ok", "send.fail"}
 
 \* the ping goroutine's Send
+PingAux(k, b) == /\ sending' = [sending EXCEPT ![k] = b]
+                 /\ UNCHANGED <<ncalls, tmo, t0, dlvAt, ansAt, trying, early, clun, indlv, recBy, crun, refused>>
 TPing == LET k == E.c IN
-  /\ k \in Conns /\ Same(aux)
-  /\ CASE K = "send.nc"   -> status[k] # "Connected" /\ NoOp
-       [] K = "send.try"  -> status[k] = "Connected" /\ NoOp
-       [] K = "send.ok"   -> /\ status[k] = "Connected" /\ WriteOk(k)
+  /\ k \in Conns
+  /\ CASE K = "send.nc"   -> status[k] # "Connected" /\ MuFree(k) /\ NoOp /\ Same(aux)
+       [] K = "send.try"  -> status[k] = "Connected" /\ MuFree(k) /\ NoOp /\ PingAux(k, TRUE)
+       [] K = "send.ok"   -> /\ status[k] = "Connected" /\ WriteOk(k) /\ sending[k] /\ PingAux(k, FALSE)
                              /\ IF Cur(k).fin = "open" THEN NoOp
                                 ELSE /\ SetL(k, gen[k], [Cur(k) EXCEPT !.rst = TRUE])
                                      /\ UNCHANGED <<callVars, status, gen, clr, rcq, dial, produced, drops, noise, sil>>
-       [] K = "send.fail" -> /\ status[k] = "Connected" /\ Cur(k).fin = "srv"
+       [] K = "send.fail" -> /\ status[k] = "Connected" /\ Cur(k).fin = "srv" /\ sending[k] /\ PingAux(k, FALSE)
                              /\ rcq' = [rcq EXCEPT ![k] = @ + 1]
                              /\ UNCHANGED <<callVars, status, gen, link, clr, dial, produced, drops, noise, sil>>
 
@@ -147,7 +158,8 @@ OnLink == E.c \in Conns /\ E.g \in Gens(E.c)
 Fin    == L(E.c, E.g).fin
 MarkAns(c) == IF c \in Calls /\ ansAt[c] = <<>> THEN ansAt' = [ansAt EXCEPT ![c] = <<T, E.c, E.g>>] ELSE UNCHANGED ansAt
 TServer == LET k == E.c  g == E.g IN
-  CASE K = "srv.hsdrop" -> NoOp /\ Same(aux)
+  CASE K = "srv.hsdrop" -> /\ NoOp /\ refused' = refused + 1
+                           /\ UNCHANGED <<ncalls, tmo, t0, dlvAt, ansAt, trying, early, clun, indlv, recBy, crun, sending>>
     [] K = "srv.up"   -> k \in Conns /\ g = gen[k] + 1 /\ DialOk(k) /\ Same(aux)
     [] K = "srv.recv" -> /\ OnLink /\ Same(aux)
                          /\ IF Fin = "open" THEN E.i \in Calls /\ SrvRecv(k, g, E.i) ELSE NoOp
@@ -213,13 +225,15 @@ ClientKinds == {"cl.recv", "lookup", "dlv.pre", "dlv.post"}
 \* --------------------------------------------------------------- reconnect
 TReconnect == LET k == E.c IN
   /\ k \in Conns
+  /\ (K # "rc.dialfail" => MuFree(k))
   /\ CASE K = "rc.begin" /\ E.who = "rc" -> status[k] = "Connected" /\ RcBegin(k) /\ Same(aux)
        [] K = "rc.skip"  /\ E.who = "rc" -> status[k] = "Connecting" /\ RcBegin(k) /\ Same(aux)
        [] K = "rc.begin" /\ E.who = "r"  -> E.g \in Gens(k) /\ status[k] = "Connected" /\ ReaderRcBegin(k, E.g) /\ Same(aux)
        [] K = "rc.skip"  /\ E.who = "r"  -> E.g \in Gens(k) /\ status[k] = "Connecting" /\ ReaderRcBegin(k, E.g) /\ Same(aux)
-       [] K = "rc.dialfail" -> /\ DialFail(k)
+       \* a dial fails only because the server closed that attempt during its handshake
+       [] K = "rc.dialfail" -> /\ DialFail(k) /\ refused > 0 /\ refused' = refused - 1
                                /\ recBy' = [recBy EXCEPT ![k] = IF @ = Inf THEN Inf ELSE Max2(@, T) + RetryMs + Slack]
-                               /\ UNCHANGED <<ncalls, tmo, t0, dlvAt, ansAt, trying, early, clun, indlv, crun, sending, refused>>
+                               /\ UNCHANGED <<ncalls, tmo, t0, dlvAt, ansAt, trying, early, clun, indlv, crun, sending>>
        [] K = "conn.up" -> /\ E.g = gen[k] + 1 /\ SetupDone(k)
                            /\ recBy' = [recBy EXCEPT ![k] = IF L(k, E.g).fin = "open" THEN Inf ELSE T + RecoverMs]
                            /\ UNCHANGED <<ncalls, tmo, t0, dlvAt, ansAt, trying, early, clun, indlv, crun, sending, refused>>
